@@ -228,52 +228,74 @@ Proof.
   - intros Q; inversion Q; subst. reflexivity.
 Qed.
 
-Ltac fw_step :=
-  lazymatch goal with
-  | |- fwds ?s = fwds ?s => reflexivity
-  | |- fwds (emit ?s _) = _ => change (fwds (emit s _)) with (fwds s)
-  | |- fwds (push_main ?s _) = _ => change (fwds (push_main s _)) with (fwds s)
-  | |- fwds (push_frame ?s _ _) = _ => change (fwds (push_frame s _ _)) with (fwds s)
-  | |- fwds (upd_actor ?s _ _) = _ => change (fwds (upd_actor s _ _)) with (fwds s)
-  | |- fwds (timer_add ?s _ _ _ _) = _ => change (fwds (timer_add s _ _ _ _)) with (fwds s)
-  | |- fwds (submit _ _ _) = _ => rewrite fwds_submit
-  | |- fwds (ref_clone _ _) = _ => rewrite fwds_ref_clone
-  | |- fwds (log_rec _ _ _ _ _) = _ => rewrite fwds_log_rec
-  | |- fwds (target_ev _ _) = _ => rewrite fwds_target_ev
-  | |- fwds (new_actor _ _ _ _ _) = _ => rewrite fwds_new_actor
-  | |- fwds (tok_script _ _) = _ => rewrite fwds_tok_script
-  | |- fwds (set_alive ?s _) = _ => change (fwds (set_alive s _)) with (fwds s)
-  | |- fwds (set_now ?s _) = _ => change (fwds (set_now s _)) with (fwds s)
-  | |- fwds (set_start ?s _) = _ => change (fwds (set_start s _)) with (fwds s)
-  | |- fwds (set_mainq ?s _) = _ => change (fwds (set_mainq s _)) with (fwds s)
-  | |- fwds (set_lazyq ?s _) = _ => change (fwds (set_lazyq s _)) with (fwds s)
-  | |- fwds (set_idleq ?s _) = _ => change (fwds (set_idleq s _)) with (fwds s)
-  | |- fwds (set_timers ?s _) = _ => change (fwds (set_timers s _)) with (fwds s)
-  | |- fwds (set_tnext ?s _) = _ => change (fwds (set_tnext s _)) with (fwds s)
-  | |- fwds (set_tvars ?s _) = _ => change (fwds (set_tvars s _)) with (fwds s)
-  | |- fwds (set_recreate ?s _) = _ => change (fwds (set_recreate s _)) with (fwds s)
-  | |- fwds (set_env ?s _) = _ => change (fwds (set_env s _)) with (fwds s)
-  | |- fwds (set_frames ?s _) = _ => change (fwds (set_frames s _)) with (fwds s)
-  | |- fwds (set_nuid ?s _) = _ => change (fwds (set_nuid s _)) with (fwds s)
-  | |- fwds (set_logseq ?s _) = _ => change (fwds (set_logseq s _)) with (fwds s)
-  | |- fwds (set_logfilter ?s _) = _ => change (fwds (set_logfilter s _)) with (fwds s)
-  | |- fwds (set_haslogger ?s _) = _ => change (fwds (set_haslogger s _)) with (fwds s)
-  | |- fwds (set_shut ?s _) = _ => change (fwds (set_shut s _)) with (fwds s)
-  | |- fwds (set_tr ?s _) = _ => change (fwds (set_tr s _)) with (fwds s)
-  | |- fwds (if ?b then _ else _) = _ => destruct b
-  | |- fwds ?s' = _ =>
-      match goal with
-      | H : take _ _ = (_, s') |- _ => rewrite (fwds_take _ _ _ _ H)
-      | H : take_caps _ _ = (_, s') |- _ => rewrite (fwds_take_caps _ _ _ _ H)
-      | H : bind _ _ _ = (_, s') |- _ => rewrite (fwds_bind _ _ _ _ _ H)
-      | H : bad _ _ = (_, s') |- _ => rewrite (fwds_bad _ _ _ _ H)
-      | H : inst _ _ _ = (_, s') |- _ => rewrite (fwds_inst _ _ _ _ _ H)
-      | H : inst_call _ _ _ = (_, s') |- _ => rewrite (fwds_inst_call _ _ _ _ _ H)
-      | H : inst_nocaps _ _ _ = (_, s') |- _ => rewrite (fwds_inst_nocaps _ _ _ _ _ H)
-      | H : mk_notifier _ _ _ = (_, s') |- _ => rewrite (fwds_mk_notifier _ _ _ _ _ H)
-      end
-  end.
-Ltac fw_tac := repeat fw_step.
+Lemma fwds_emit s e : fwds (emit s e) = fwds s. Proof. reflexivity. Qed.
+Lemma fwds_push_main s c : fwds (push_main s c) = fwds s. Proof. reflexivity. Qed.
+Lemma fwds_push_frame s c l : fwds (push_frame s c l) = fwds s. Proof. reflexivity. Qed.
+Lemma fwds_upd_actor s a x : fwds (upd_actor s a x) = fwds s. Proof. reflexivity. Qed.
+Lemma fwds_timer_add s k v t c : fwds (timer_add s k v t c) = fwds s. Proof. reflexivity. Qed.
+Lemma fwds_set_alive s v : fwds (set_alive s v) = fwds s. Proof. reflexivity. Qed.
+Lemma fwds_set_now s v : fwds (set_now s v) = fwds s. Proof. reflexivity. Qed.
+Lemma fwds_set_start s v : fwds (set_start s v) = fwds s. Proof. reflexivity. Qed.
+Lemma fwds_set_mainq s v : fwds (set_mainq s v) = fwds s. Proof. reflexivity. Qed.
+Lemma fwds_set_lazyq s v : fwds (set_lazyq s v) = fwds s. Proof. reflexivity. Qed.
+Lemma fwds_set_idleq s v : fwds (set_idleq s v) = fwds s. Proof. reflexivity. Qed.
+Lemma fwds_set_timers s v : fwds (set_timers s v) = fwds s. Proof. reflexivity. Qed.
+Lemma fwds_set_tnext s v : fwds (set_tnext s v) = fwds s. Proof. reflexivity. Qed.
+Lemma fwds_set_tvars s v : fwds (set_tvars s v) = fwds s. Proof. reflexivity. Qed.
+Lemma fwds_set_recreate s v : fwds (set_recreate s v) = fwds s. Proof. reflexivity. Qed.
+Lemma fwds_set_env s v : fwds (set_env s v) = fwds s. Proof. reflexivity. Qed.
+Lemma fwds_set_frames s v : fwds (set_frames s v) = fwds s. Proof. reflexivity. Qed.
+Lemma fwds_set_nuid s v : fwds (set_nuid s v) = fwds s. Proof. reflexivity. Qed.
+Lemma fwds_set_logseq s v : fwds (set_logseq s v) = fwds s. Proof. reflexivity. Qed.
+Lemma fwds_set_logfilter s v : fwds (set_logfilter s v) = fwds s. Proof. reflexivity. Qed.
+Lemma fwds_set_haslogger s v : fwds (set_haslogger s v) = fwds s. Proof. reflexivity. Qed.
+Lemma fwds_set_shut s v : fwds (set_shut s v) = fwds s. Proof. reflexivity. Qed.
+Lemma fwds_set_tr s v : fwds (set_tr s v) = fwds s. Proof. reflexivity. Qed.
+
+Ltac fw_rw :=
+  repeat first
+    [ rewrite fwds_emit
+    | rewrite fwds_push_main
+    | rewrite fwds_push_frame
+    | rewrite fwds_upd_actor
+    | rewrite fwds_timer_add
+    | rewrite fwds_set_alive
+    | rewrite fwds_set_now
+    | rewrite fwds_set_start
+    | rewrite fwds_set_mainq
+    | rewrite fwds_set_lazyq
+    | rewrite fwds_set_idleq
+    | rewrite fwds_set_timers
+    | rewrite fwds_set_tnext
+    | rewrite fwds_set_tvars
+    | rewrite fwds_set_recreate
+    | rewrite fwds_set_env
+    | rewrite fwds_set_frames
+    | rewrite fwds_set_nuid
+    | rewrite fwds_set_logseq
+    | rewrite fwds_set_logfilter
+    | rewrite fwds_set_haslogger
+    | rewrite fwds_set_shut
+    | rewrite fwds_set_tr
+    | rewrite fwds_submit
+    | rewrite fwds_ref_clone
+    | rewrite fwds_log_rec
+    | rewrite fwds_target_ev
+    | rewrite fwds_new_actor
+    | rewrite fwds_tok_script
+    | match goal with
+      | H : take _ _ = (_, ?s') |- context [fwds ?s'] => rewrite (fwds_take _ _ _ _ H)
+      | H : take_caps _ _ = (_, ?s') |- context [fwds ?s'] => rewrite (fwds_take_caps _ _ _ _ H)
+      | H : bind _ _ _ = (_, ?s') |- context [fwds ?s'] => rewrite (fwds_bind _ _ _ _ _ H)
+      | H : bad _ _ = (_, ?s') |- context [fwds ?s'] => rewrite (fwds_bad _ _ _ _ H)
+      | H : inst _ _ _ = (_, ?s') |- context [fwds ?s'] => rewrite (fwds_inst _ _ _ _ _ H)
+      | H : inst_call _ _ _ = (_, ?s') |- context [fwds ?s'] => rewrite (fwds_inst_call _ _ _ _ _ H)
+      | H : inst_nocaps _ _ _ = (_, ?s') |- context [fwds ?s'] => rewrite (fwds_inst_nocaps _ _ _ _ _ H)
+      | H : mk_notifier _ _ _ = (_, ?s') |- context [fwds ?s'] => rewrite (fwds_mk_notifier _ _ _ _ _ H)
+      | |- context [fwds (if ?b then _ else _)] => destruct b
+      end ].
+Ltac fw_tac := fw_rw; reflexivity.
+
 
 Definition isO (m : mop) : bool := match m with MOrphNew _ | MOrphDrop _ => true | _ => false end.
 Lemma isO_app a b : existsb isO (a ++ b) = existsb isO a || existsb isO b. Proof. apply existsb_app. Qed.
